@@ -1,5 +1,8 @@
 /* hnorm: executor/recorder for wcsnorm_s and the case-folding functions (C17).
  * stdin:  id n mode dmax len cp1..cplen          wcsnorm_s(dest,dmax,src,mode(0 NFD,1 NFC),&len)
+ *         id d dmax len cp1..cplen               wcsnorm_decompose_s(dest,dmax,src,&len,false)      (the stages, exported entry points)
+ *         id r dmax len cp1..cplen               wcsnorm_reorder_s(dest,dmax,src,len)
+ *         id c dmax len cp1..cplen               wcsnorm_compose_s(dest,dmax,src,&len(in: len),false)
  *         id f cp                                iswfc(cp), towfc_s(dest,4,cp), wcsfc_s(dest,16,{cp},&len)
  *         id w dmax len cp1..cplen               wcsfc_s(dest,dmax,src,&len); next to it the number of elements wcsfc_s emits for each
  *                                                character alone (into an ample buffer) is recorded
@@ -14,14 +17,15 @@ int main(void) {
     h_install_handlers();
     R = h_region(8);
     while (scanf("%ld %3s", &id, op) == 2) {
-        if (op[0] == 'n') {
-            long mode, dmax, len, i;
+        if (op[0] == 'n' || op[0] == 'd' || op[0] == 'r' || op[0] == 'c') {
+            long mode = 0, dmax, len, i;
             static wchar_t src[4096];
             wchar_t *dest;
             rsize_t outlen = 77777;
             long rc = -9999;
             int fk = 0, frame_ok = 1;
-            scanf("%ld %ld %ld", &mode, &dmax, &len);
+            if (op[0] == 'n') scanf("%ld", &mode);
+            scanf("%ld %ld", &dmax, &len);
             for (i = 0; i < len; i++) { long v; scanf("%ld", &v); src[i] = (wchar_t)v; }
             src[len] = 0;
             for (i = 0; i < R.rwlen / 4; i++) ((uint32_t *)R.rw)[i] = 0x5C5C5C5C;
@@ -30,15 +34,25 @@ int main(void) {
             printf("#%ld\n", id); fflush(stdout);
             if (!sigsetjmp(h_jb, 1)) {
                 h_armed = 1; alarm(5);
-                rc = _wcsnorm_s_chk(dest, (rsize_t)dmax, src, mode ? WCSNORM_NFC : WCSNORM_NFD, &outlen, H_KBOS(id, dmax > 0, dmax * sizeof(wchar_t)));
+                if (op[0] == 'n')
+                    rc = _wcsnorm_s_chk(dest, (rsize_t)dmax, src, mode ? WCSNORM_NFC : WCSNORM_NFD, &outlen, H_KBOS(id, dmax > 0, dmax * sizeof(wchar_t)));
+                else if (op[0] == 'd')      /* the stages of wcsnorm_s, which are entry points of their own */
+                    rc = _wcsnorm_decompose_s_chk(dest, (rsize_t)dmax, src, &outlen, false, H_KBOS(id, dmax > 0, dmax * sizeof(wchar_t)));
+                else if (op[0] == 'r') {
+                    rc = _wcsnorm_reorder_s_chk(dest, (rsize_t)dmax, src, (rsize_t)len, H_KBOS(id, dmax > 0, dmax * sizeof(wchar_t)));
+                    outlen = 77777;
+                } else {
+                    outlen = (rsize_t)len;
+                    rc = _wcsnorm_compose_s_chk(dest, (rsize_t)dmax, src, &outlen, false, H_KBOS(id, dmax > 0, dmax * sizeof(wchar_t)));
+                }
                 alarm(0); h_armed = 0;
             } else { alarm(0); fk = h_fault_kind; }
             for (i = 0; i < (R.rwlen / 4) - dmax; i++) if (((uint32_t *)R.rw)[i] != 0x5C5C5C5C) { frame_ok = 0; break; }
-            printf("{\"id\":%ld,\"op\":\"n\",\"mode\":%ld,\"dmax\":%ld,\"s\":[", id, mode, dmax);
+            printf("{\"id\":%ld,\"op\":\"%c\",\"mode\":%ld,\"dmax\":%ld,\"s\":[", id, op[0], mode, dmax);
             for (i = 0; i < len; i++) printf("%s%ld", i ? "," : "", (long)(uint32_t)src[i] > 2000000000L ? 2000000000L : (long)(uint32_t)src[i]);
             printf("],\"post\":[");
             for (i = 0; i < dmax && i < 400; i++) printf("%s%ld", i ? "," : "", (long)(uint32_t)dest[i] > 2000000000L ? 2000000000L : (long)(uint32_t)dest[i]);
-            printf("],\"rc\":%ld,\"len\":%ld,", rc, (long)outlen);
+            printf("],\"rc\":%ld,\"len\":%ld,", rc, outlen > 1000000 ? -1L : (long)outlen);
             h_print_handlers(stdout);
             printf(",\"frame_ok\":%s,\"fault\":\"%s\"}\n", frame_ok ? "true" : "false", h_fault_name(fk));
         } else if (op[0] == 'w') {
